@@ -34,7 +34,7 @@ import (
 const (
 	c04Instance = 42
 	c04MaxKeys  = 4
-	c04Set      = 3 // keyper set named by the base messages
+	c04Set      = 1 // keyper set named by the base messages (equal to the keyper index of the receiver, so that a set index used as a keyper index aliases)
 	c04OtherSet = 4 // a second set the receiver belongs to (always successful, different keys)
 )
 
